@@ -208,6 +208,9 @@ func genMinterCfg(rng *Rng, t0 time.Time) minterCfg {
 		c.start = t0.Add(-time.Duration(rng.I64n(int64(1000 * time.Hour)))).Truncate(time.Second)
 	}
 	n := 1 + rng.Intn(5)
+	if rng.Chance(20) {
+		n = 6 + rng.Intn(4) // long schedules: a late first block (or a long pause) hands over across many period ends at once
+	}
 	prevEnd := c.start
 	firstId := uint32(1 + rng.Intn(3))
 	for i := 0; i < n; i++ {
